@@ -119,3 +119,37 @@ Print Assumptions C15_isolation_reachable.
 Print Assumptions C15_complete.
 Print Assumptions C15_written_chunk_can_mix.
 Print Assumptions C15_written_chunk_can_be_stale.
+
+(* ================= phase 3: over the TRANSLATED WriteSector =================
+   C14_skel_rw.interp_write interprets the statement skeleton tools/gotrans renders from save/region/mca.go on
+   every run; its write list is in SOURCE ORDER (C15_write_order_translated: header entry and timestamp BEFORE
+   length and data when sectors are reallocated; length then data in place). *)
+From GoMC Require Proofs.C14_skel_rw Proofs.C14_skel_c15.
+
+Theorem C15_write_order_translated : forall s x z d now s' ws,
+  x < 32 -> z < 32 -> lenN d + 4 + 4095 < 2^43 -> hwm s <= sector_limit -> now < 2^63 ->
+  C14_skel_rw.interp_write s x z d now = Some (s', ws, WOk) ->
+  (exists n, map wpos ws = [4096 * n; 4096 * n + 4] /\ map wdat ws = [be 4 (flen d); d]) \/
+  (exists n o', map wpos ws = [4 * idx x z; 4096 + 4 * idx x z; 4096 * n; 4096 * n + 4] /\
+                map wdat ws = [be 4 o'; be 4 (now mod 2^32); be 4 (flen d); d]).
+Proof. exact C14_skel_c15.write_order_translated. Qed.
+
+Theorem C15_isolation_translated : forall s m x z d now s' ws,
+  R s m -> x < 32 -> z < 32 -> lenN d + 4 + 4095 < 2^43 -> now < 2^63 ->
+  C14_skel_rw.interp_write s x z d now = Some (s', ws, WOk) ->
+  forall k t, exists sl,
+    load (torn_image (img s) ws k t) = LOk sl /\ img sl = torn_image (img s) ws k t /\
+    forall x' z', x' < 32 -> z' < 32 -> (x', z') <> (x, z) ->
+      read_sector sl x' z' = spec_read m (idx x' z') /\
+      exist_sector sl x' z' = is_some (m (idx x' z')).
+Proof. exact C14_skel_c15.crash_isolation_translated. Qed.
+
+Theorem C15_isolation_any_parts_translated : forall s m x z d now s' ws g,
+  R s m -> x < 32 -> z < 32 -> lenN d + 4 + 4095 < 2^43 -> now < 2^63 ->
+  C14_skel_rw.interp_write s x z d now = Some (s', ws, WOk) -> Forall (part_of ws) g ->
+  exists sl, load (g ++ img s) = LOk sl /\ img sl = g ++ img s /\ others_intact sl m (idx x z).
+Proof. exact C14_skel_c15.crash_isolation_parts_translated. Qed.
+
+Print Assumptions C15_write_order_translated.
+Print Assumptions C15_isolation_translated.
+Print Assumptions C15_isolation_any_parts_translated.
